@@ -14,9 +14,9 @@ FUEL = 60
 
 HEADER = """From Coq Require Import List ZArith NArith Bool Arith.
 Import ListNotations.
-From PyccoloV Require Import gen.Events model.Tree model.Erase model.RwFrag model.FragSem model.FragFun model.FragProg proofs.FragProgProofs.
+From PyccoloV Require Import gen.Ids gen.Events model.Tree model.Erase model.RwFrag model.FragSem model.FragFun model.FragProg proofs.FragProgProofs.
 Local Open Scope N_scope.
-Definition encv (v : val) : Z * Z := match v with VInt z => (0, z) | VBool b => (1, if b then 1 else 0) | VNone => (2, 0) | VStr s => (3, Z.of_N s) | VFun _ => (4, 0) end%Z.
+Definition encv (v : val) : Z * Z := match v with VInt z => (0, z) | VBool b => (1, if b then 1 else 0) | VNone => (2, 0) | VStr s => (3, Z.of_N s) | VFun _ | VBuiltin _ => (4, 0) | VRange _ _ => (9, 0) end%Z.
 Definition enco (o : option val) : Z * Z := match o with Some v => encv v | None => (4, 0)%Z end.
 Definition ence (en : entry) := (event_idx (fst (fst en)), snd (fst en), enco (snd en)).
 Definition encx (x : option pexc) : N :=
@@ -24,6 +24,7 @@ Definition encx (x : option pexc) : N :=
 Definition encenv (r : env) (names : list N) := map (fun x => match r x with Some v => encv v | None => (5, 0)%Z end) names.
 Definition guard_eqb (a b : guard) : bool :=
   match a, b with GTest n, GTest m | GBody n, GBody m | GFun n, GFun m => N.eqb n m | _, _ => false end.
+Definition env0 : env := fun x => if N.eqb x id_range then Some (VBuiltin 0) else None.      (* the builtins of the fragment *)
 Definition mkpol (rules : list (nat * bool * guard)) (log : list entry) (g : guard) : bool :=
   fold_left (fun acc rule => let '(k, b, g') := rule in if Nat.leb k (length log) && guard_eqb g g' then b else acc) rules true.
 Notation X := (prun Py.binop Py.cmpop Py.unop Py.truth Py.cval Py.is_and).
@@ -32,9 +33,9 @@ Definition one (c : rcfg) (ge : bool) (rules : list (nat * bool * guard)) (names
   | None => None
   | Some m =>
       let im := pinstr_module c ge m in
-      let a := X c (mkpol rules) FUELnat DEPTHnat im (fun _ => None) VNone in
-      let p := X c (mkpol rules) FUELnat DEPTHnat m (fun _ => None) VNone in
-      let rf := pref_module Py.binop Py.cmpop Py.unop Py.truth Py.cval Py.is_and c (mkpol rules) FUELnat ge DEPTHnat m (fun _ => None) in
+      let a := X c (mkpol rules) FUELnat DEPTHnat im env0 VNone in
+      let p := X c (mkpol rules) FUELnat DEPTHnat m env0 VNone in
+      let rf := pref_module Py.binop Py.cmpop Py.unop Py.truth Py.cval Py.is_and c (mkpol rules) FUELnat ge DEPTHnat m env0 in
       Some (tree_eqb (tp_module im) o && forallb psrc_t m,
             (encx (p_exc a), encenv (p_env a) names, map ence (filter_log c (p_log a))),
             (encx (pr_exc rf), encenv (pr_env rf) names, map ence (filter_log c (pr_log rf))),
